@@ -3,59 +3,163 @@ from fractions import Fraction as Fr
 
 from ..nf import Rat, C
 from ..source import Unsupported, AnchorError
-from ..xlate import Interp, Obj, ListV, DictV, Raised
-from .common import same, show, opaque_obj, atoms_of
+from ..xlate import Interp, Obj, ListV, DictV, Raised, _RaisedExc
+from .common import same, show, opaque_obj, atoms_of, proportional
+from .rxnfix import get_public, set_public
 
 REFS = 'pmutt.empirical.references.References'
+REF1 = 'pmutt.empirical.references.Reference'
+SM = 'pmutt.statmech.StatMech'
 
 
 OTHER = {'elements': 'groups', 'groups': 'elements'}
+MODES = ('trans_model', 'vib_model', 'rot_model', 'elec_model', 'nucl_model')
+MODE_Q = ('get_HoRT', 'get_GoRT', 'get_SoR', 'get_CpoR', 'get_CvoR')
 
 
-def ref_species(I, name, comp, Tref, dname='elements'):
-    """a reference species: experimental enthalpy, opaque model, the composition ``comp`` under the descriptor the
-    references are described by and an unrelated composition under the other one"""
+def pub(I, obj, attr):
+    """obj.attr as a user reads it; a Raised when the object has no such attribute"""
+    try:
+        return get_public(I, obj, attr)
+    except _RaisedExc as e:
+        return e.raised if hasattr(e, 'raised') else Raised('AttributeError')
+
+
+def built(v, what):
+    """objects of the fixtures are made by the package's own constructors from valid arguments"""
+    if isinstance(v, Raised):
+        raise Unsupported('%s raised %s for the model object of the rule' % (what, v.exc))
+    return v
+
+
+class RefSp:
+    """the rule's own record of one reference species: what it handed to ``Reference(...)``"""
+    def __init__(self, label, obj, comp, T, Hexp, model):
+        self.label, self.obj, self.comp, self.T, self.Hexp, self.model = label, obj, comp, T, Hexp, model
+
+    def dft(self, I, T):
+        return self.model.opaque_methods['get_HoRT'](I, self.model, [], {'T': T})
+
+
+def ref_species(I, repo, label, comp, Tref, dname='elements', name=None, counts=None, other=True):
+    """a reference species made by ``Reference(name=, elements=, T_ref=, HoRT_ref=, model=)``: experimental enthalpy,
+    opaque model, the composition ``comp`` under the descriptor the references are described by (a dictionary other
+    than the elements is assigned as an attribute, the way users attach it) and - ``other`` - an unrelated composition
+    under the other name.  ``name`` is the species' name in pMuTT (None is the default of the class; names need not
+    be unique), ``label`` only names the symbols of the rule.  ``counts``: concrete numbers instead of symbols."""
     D = I.D
-    model = opaque_obj(I, name + '.model', {'get_HoRT': ('T',)})
-    o = Obj(name, attrs={'name': name, 'T_ref': Tref, 'HoRT_ref': D.sym(name + '.HoRT_exp'), 'model': model,
-                         dname: DictV({k: D.sym('%s.n%s' % (name, k)) for k in comp}),
-                         OTHER[dname]: DictV({k: D.sym('%s.other%s' % (name, k)) for k in ('X', 'B')})})
-    return o
+    model = opaque_obj(I, label + '.model', {'get_HoRT': ('T',)})
+    cnt = {k: (C(Fr(counts[k])) if counts is not None else D.sym('%s.n%s' % (label, k))) for k in comp}
+    unrelated = DictV({k: D.sym('%s.other%s' % (label, k)) for k in ('X', 'B')}) if other else None
+    Hexp = D.sym(label + '.HoRT_exp')
+    kw = {'name': name, 'T_ref': Tref, 'HoRT_ref': Hexp, 'model': model,
+          'elements': DictV(cnt) if dname == 'elements' else unrelated}
+    o = built(I.construct(repo.cls(REF1), [], kw, name=label), 'Reference(...)')
+    if dname != 'elements':
+        set_public(I, o, dname, DictV(cnt))
+    elif other:
+        set_public(I, o, OTHER[dname], unrelated)
+    return RefSp(label, o, cnt, Tref, Hexp, model)
+
+
+def make_species(I, repo, name, refs, comp, dname, other=None):
+    """a species made by ``StatMech(name=, <five opaque modes>, elements=, references=)``.  Its composition under the
+    descriptor the references are described by is ``comp``; under the other name it has ``other`` or nothing at all:
+    elements=None is the default of the class, and a dictionary of groups exists only on species it was assigned to."""
+    modes = {a_: opaque_obj(I, '%s.%s' % (name, a_), {q_: ('T',) for q_ in MODE_Q}) for a_ in MODES}
+    kw = dict(modes, name=name, references=refs)
+    if dname == 'elements':
+        kw['elements'] = comp
+    elif other is not None:
+        kw['elements'] = other
+    sp = built(I.construct(repo.cls(SM), [], kw, name=name), 'StatMech(...)')
+    if dname != 'elements':
+        set_public(I, sp, dname, comp)
+    elif other is not None:
+        set_public(I, sp, OTHER[dname], other)
+    return sp
+
+
+def is_matrix(M):
+    return isinstance(M, ListV) and bool(M.items) and all(isinstance(r_, ListV) for r_ in M.items)
+
+
+def determinant(rows):
+    if len(rows) == 1:
+        return rows[0][0]
+    tot = C(0)
+    for j, a in enumerate(rows[0]):
+        if isinstance(a, Rat) and a.iszero():
+            continue
+        minor = determinant([r_[:j] + r_[j + 1:] for r_ in rows[1:]])
+        tot = tot + (a * minor if j % 2 == 0 else -(a * minor))
+    return tot
 
 
 def solver_model(I):
     """np.linalg.lstsq as an uninterpreted solver.  Every call returns fresh symbols (off<call>_<column>), so that the
     solution of an earlier fit cannot pass for the current one.  The model stands for 'the least-squares solution of
     the system it is given' only when no singular value of a well-conditioned system is cut off: rcond absent, None
-    or -1 (machine precision) or a tiny number."""
+    or -1 (machine precision) or a tiny number.
+    np.linalg.solve is the exact solver NumPy documents: LinAlgError for a matrix that is not square or is singular
+    (determinant identically zero - decided on the concrete rank-deficient reference sets of the rule), otherwise the
+    solution of the system, which for a non-singular square system is its least-squares solution."""
     sols = {'calls': 0}
 
+    def solution(I_, M, y):
+        sols['calls'] += 1
+        ncol = len(M.items[0])
+        sol = ListV([I_.D.sym('off%d_%d' % (sols['calls'], j)) for j in range(ncol)])
+        sol.is_array = True
+        sols['M'], sols['y'], sols['x'] = M, y, sol
+        return sol
+
+    def operands(fname, args, kwargs, nd, extra=()):
+        if len(args) > 2 + len(extra) or set(kwargs) - {'a', 'b'} - set(extra):
+            raise Unsupported('np.linalg.%s called with %d positional arguments and %s'
+                              % (fname, len(args), sorted(kwargs)), nd)
+        vals = []
+        for i, k in enumerate(('a', 'b') + tuple(extra)):
+            if i < len(args) and k in kwargs:
+                raise _RaisedExc(Raised('TypeError', nd))       # multiple values for an argument
+            vals.append(args[i] if i < len(args) else kwargs.get(k))
+        if vals[0] is None or vals[1] is None:
+            raise _RaisedExc(Raised('TypeError', nd))           # missing required argument
+        if not is_matrix(vals[0]):
+            raise Unsupported('np.linalg.%s: matrix is not a non-empty two-dimensional array' % fname, nd)
+        return vals
+
     def lstsq(I_, fr, args, kwargs, nd):
-        if len(args) < 2 or set(kwargs) - {'rcond'}:
-            raise Unsupported('np.linalg.lstsq called with %d positional arguments and %s' % (len(args), sorted(kwargs)), nd)
-        M, y = args[0], args[1]
-        rcond = args[2] if len(args) > 2 else kwargs.get('rcond')
-        if len(args) > 3:
-            raise Unsupported('np.linalg.lstsq with more than three arguments', nd)
+        M, y, rcond = operands('lstsq', args, kwargs, nd, ('rcond',))
         if rcond is not None:
             if not isinstance(rcond, Rat) or not (rcond.iszero() or rcond.is_const()):
                 raise Unsupported('np.linalg.lstsq with a symbolic rcond', nd)
             val = Fr(0) if rcond.iszero() else rcond.const_value()
             if not (val < 0 or val <= Fr(1, 10 ** 10)):
                 sols.setdefault('rcond', []).append((val, nd, fr.module if fr is not None else None))
-        if not isinstance(M, ListV) or not M.items or not isinstance(M.items[0], ListV):
-            raise Unsupported('np.linalg.lstsq: matrix is not a non-empty two-dimensional array', nd)
-        sols['calls'] += 1
-        ncol = len(M.items[0])
-        sol = ListV([I_.D.sym('off%d_%d' % (sols['calls'], j)) for j in range(ncol)])
-        sol.is_array = True
-        sols['M'], sols['y'], sols['x'] = M, y, sol
-        return ListV([sol, C(0), C(0), C(0)])
+        # (solution, residuals, rank, singular values): only the solution has a model; whatever the code does with the
+        # other three is decided on uninterpreted numbers (a comparison of the rank is refused, not guessed)
+        x_ = solution(I_, M, y)
+        return ListV([x_] + [I_.D.sym('lstsq%d.%s' % (sols['calls'], k_)) for k_ in ('residuals', 'rank', 'sv')])
+
+    def solve(I_, fr, args, kwargs, nd):
+        M, y = operands('solve', args, kwargs, nd)
+        rows = [list(r_.items) for r_ in M.items]
+        if any(len(r_) != len(rows) for r_ in rows):
+            raise _RaisedExc(Raised('LinAlgError', nd))         # last 2 dimensions of the array must be square
+        if not all(isinstance(v_, Rat) for r_ in rows for v_ in r_):
+            raise Unsupported('np.linalg.solve: matrix entries that are not numbers', nd)
+        if len(rows) > 4:
+            raise Unsupported('np.linalg.solve: determinant of a %dx%d matrix' % (len(rows), len(rows)), nd)
+        if determinant(rows).iszero():
+            raise _RaisedExc(Raised('LinAlgError', nd))         # Singular matrix
+        return solution(I_, M, y)
     I.native['numpy.linalg.lstsq'] = lstsq
+    I.native['numpy.linalg.solve'] = solve
     return sols
 
 
-def refit(run, repo, ci, I, r, species, sols, dname, label, stage):
+def refit(run, repo, ci, I, r, species, sols, dname, label, stage, holders=()):
     owner, fn = repo.find_method(ci, 'fit_HoRT_offset')
     calls = sols['calls']
     for k in ('M', 'y', 'x'):
@@ -66,16 +170,16 @@ def refit(run, repo, ci, I, r, species, sols, dname, label, stage):
                  'refitting does not solve the least-squares system again (%s, %d solver calls)'
                  % (show(res), sols['calls'] - calls), owner.module, fn)
         return 0
-    return verify_fit(run, repo, ci, I, r, species, sols, dname, label, stage)
+    return verify_fit(run, repo, ci, I, r, species, sols, dname, label, stage, holders)
 
 
-def verify_fit(run, repo, ci, I, r, species, sols, dname, label, stage):
-    """after a fit of ``r`` to ``species`` (the rule's own list): system handed to the solver, what was stored, and the
-    reproduction of every reference"""
+def verify_fit(run, repo, ci, I, r, species, sols, dname, label, stage, holders=()):
+    """after a fit of ``r`` to ``species`` (the rule's own list of RefSp): system handed to the solver, what was
+    stored, the reproduction of every reference, and what a species that holds ``r`` now gets (``holders``)"""
     owner, fn = repo.find_method(ci, 'fit_HoRT_offset')
     D = I.D
     M, y, x = sols['M'], sols['y'], sols['x']
-    names = sorted({k for sp in species for k in sp.attrs[dname].d})
+    names = sorted({k for sp in species for k in sp.comp})
     n = 0
     for val, nd, mod in sols.pop('rcond', []):
         run.fail('REF.solver', 'References.fit_HoRT_offset', label + stage + ' rcond',
@@ -93,73 +197,143 @@ def verify_fit(run, repo, ci, I, r, species, sols, dname, label, stage):
                  len(species), len(names), names), owner.module, fn)
     if not shape_ok:
         return n
-    Ts = [sp.attrs['T_ref'] for sp in species]
+    Ts = [sp.T for sp in species]
     want_T = Ts[0]
     if not all(same(t, Ts[0]) for t in Ts):
         want_T = C(0)
         for t in Ts:
             want_T = want_T + t
         want_T = want_T / C(len(Ts))
-    run.check(same(r.attrs.get('T_ref'), want_T), 'REF.fit', 'References.fit_HoRT_offset', label + stage + ' T_ref',
+    got_T = pub(I, r, 'T_ref')
+    run.check(same(got_T, want_T), 'REF.fit', 'References.fit_HoRT_offset', label + stage + ' T_ref',
               'reference temperature after the fit is %s, expected the common (mean) reference temperature of the '
-              'species %s' % (show(r.attrs.get('T_ref')), show(want_T)), owner.module, fn)
-    off = r.attrs.get('offset')
+              'species %s' % (show(got_T), show(want_T)), owner.module, fn)
+    # The linear system.  The property needs: with the stored offsets o, H_dft - H_exp - M o is the least-squares
+    # residual.  The solver may be handed any non-zero constant multiple k of the right-hand side (exp - dft is k=-1)
+    # as long as the stored offsets are the solution divided by the same k.
+    want_y = [sp.dft(I, sp.T) - sp.Hexp for sp in species]
+    k = proportional(y.items[0], want_y[0]) if isinstance(y.items[0], Rat) else None
+    kk = C(k if k is not None else 1)
+    want_off = [x.items[j] / kk for j in range(len(names))]
+    off = pub(I, r, 'offset')
     ok_off = isinstance(off, DictV) and sorted(off.d) == names and \
-        all(same(off.d[k], x.items[j]) for j, k in enumerate(names))
+        all(same(off.d[k_], want_off[j]) for j, k_ in enumerate(names))
     run.check(ok_off, 'DATAFLOW.offset', 'References.fit_HoRT_offset', label + stage + ' offsets',
               'the offsets stored after the fit are %s; expected one per descriptor %s of the current reference set, '
-              'equal to the solution of this solve %s in the column order of the descriptor matrix'
-              % (show(off), names, show(x)), owner.module, fn)
+              'equal to the solution of this solve %s%s in the column order of the descriptor matrix'
+              % (show(off), names, show(x), '' if kk.eq(C(1)) else ' divided by %s (the factor the right-hand side '
+                 'was multiplied with)' % k), owner.module, fn)
     for i, sp in enumerate(species):
         # matrix row = composition of the species over the sorted descriptor names (0 when absent)
-        row_ok = all(same(M.items[i].items[j], sp.attrs[dname].d.get(k, C(0))) for j, k in enumerate(names))
+        row_ok = all(same(M.items[i].items[j], sp.comp.get(k_, C(0))) for j, k_ in enumerate(names))
         run.check(row_ok, 'DATAFLOW.matrix', 'References.get_descriptors_matrix', label + stage + ' row%d' % i,
                   'row %d of the descriptor matrix is %s, not the composition (%s) of %s over %s'
-                  % (i, show(M.items[i]), dname, sp.name, names), owner.module, fn)
-        Ti = sp.attrs['T_ref']
-        dft = sp.attrs['model'].opaque_methods['get_HoRT'](I, sp.attrs['model'], [], {'T': Ti})
-        run.check(same(y.items[i], dft - sp.attrs['HoRT_ref']), 'DATAFLOW.rhs', 'References.fit_HoRT_offset',
-                  label + stage + ' rhs%d' % i, 'right-hand side entry is %s, expected H_dft(T_ref) - H_exp'
-                  % show(y.items[i]), owner.module, fn)
+                  % (i, show(M.items[i]), dname, sp.label, names), owner.module, fn)
+        Ti = sp.T
+        dft = sp.dft(I, Ti)
+        run.check(same(y.items[i], want_y[i] * kk), 'DATAFLOW.rhs', 'References.fit_HoRT_offset',
+                  label + stage + ' rhs%d' % i, 'right-hand side entry is %s, expected H_dft(T_ref) - H_exp%s'
+                  % (show(y.items[i]), '' if i == 0 else ' times the factor %s of the first row' % kk),
+                  owner.module, fn)
         n += 2
         if not same(want_T, Ti):
             continue        # differing reference temperatures: reproduction only up to T_mean/T_i (not decided)
-        adj = I.call_method(r, 'get_HoRT', [], {'descriptors': sp.attrs[dname], 'T': Ti})
+        adj = I.call_method(r, 'get_HoRT', [], {'descriptors': DictV(dict(sp.comp)), 'T': Ti})
         resid = y.items[i]
         for j in range(len(names)):
             resid = resid - M.items[i].items[j] * x.items[j]
-        got = dft + adj - sp.attrs['HoRT_ref'] if isinstance(adj, Rat) else adj
+        resid = resid / kk
+        got = dft + adj - sp.Hexp if isinstance(adj, Rat) else adj
         run.check(same(got, resid), 'ALG.reproduces', 'References.fit_HoRT_offset', label + stage + ' species%d' % i,
                   'adjusted minus experimental enthalpy of reference %d (%s) is %s but the least-squares residual of '
-                  'its row is %s: fit and application disagree' % (i, sp.name, show(got, 160), show(resid, 160)),
+                  'its row is %s: fit and application disagree' % (i, sp.label, show(got, 160), show(resid, 160)),
                   owner.module, fn,
                   sample='H_dft + adjustment - H_exp == (y - M x)[%d]  for %s%s' % (i, label, stage))
+        n += 1
+    # a species that was given this References object BEFORE the fit is adjusted with the offsets of THIS fit
+    for sp, comp, T in holders:
+        o2, f2 = repo.find_method(repo.cls(SM), 'get_HoRT')
+        with_refs = I.call_method(sp, 'get_HoRT', [], {'T': T})
+        without = I.call_method(sp, 'get_HoRT', [], {'T': T, 'use_references': False})
+        want = C(0)
+        for j, k_ in enumerate(names):
+            if k_ in comp:
+                want = want - want_off[j] * comp[k_] * want_T / T
+        ok = isinstance(with_refs, Rat) and isinstance(without, Rat) and same(with_refs - without, want)
+        run.check(ok, 'REF.apply', 'StatMech.get_HoRT', label + stage + ' species holding the references',
+                  'a species created with references=refs before this fit is shifted by %s; expected the offsets of '
+                  'this fit over its composition, %s' % (
+                      show(with_refs - without, 160) if isinstance(with_refs, Rat) and isinstance(without, Rat)
+                      else show(with_refs, 120), show(want, 160)), o2.module, f2,
+                  sample='StatMech(references=refs) made before %s%s: shift = -(sum off_this_fit*n)*T_ref/T'
+                  % (label, stage))
         n += 1
     return n
 
 
+def np_int_counts(I, values):
+    """declare the symbols of ``values`` to stand for numpy integers (np.int64: neither a Python int nor a Python
+    float; what np.unique(..., return_counts=True) and np.sum of integers return)"""
+    for v in values:
+        I.np_syms.update({str(a_): 'int64' for a_ in atoms_of(v)})
+
+
+def arm(capability):
+    """mutants whose detection needs a model the interpreter may not have yet are armed by the run that finds the
+    model present (the self-test reads MUTANTS after the module has run)"""
+    for mt in PENDING_MUTANTS:
+        if mt['needs'] == capability and mt['name'] not in [m_['name'] for m_ in MUTANTS]:
+            MUTANTS.append({k: v for k, v in mt.items() if k != 'needs'})
+
+
+def copies_are_objects(I, obj):
+    """does the interpreter model copy.copy of an object as a new object (REQ2_C10 item 1)?"""
+    h = I.native.get('copy.copy')
+    try:
+        made = h is not None and h(I, None, [obj], {}, None) is not obj
+    except Exception:
+        return False
+    if made:
+        arm('object-copy')
+    return made
+
+
 def check(run, repo):
     run.explanation = (
-        'References is interpreted abstractly. get_CvoR/CpoR/UoRT/SoR are 0 and GoRT = HoRT - SoR; get_HoRT with '
+        'Every object is made by its public constructor (References(offset=, T_ref=, descriptor=), '
+        'References(references=[...]), Reference(name=, elements=, T_ref=, HoRT_ref=, model=), StatMech(name=, modes, '
+        'elements=, references=); a dictionary of groups is assigned as an attribute) and read through its public '
+        'attributes. get_CvoR/CpoR/UoRT/SoR are 0 and GoRT = HoRT - SoR; get_HoRT with '
         'symbolic offsets and composition is -sum offset[d]*n_d * T_ref/T: homogeneous linear in the composition, '
-        'T*HoRT free of T, descriptors absent from the references only warn. Through a species (references described '
-        'by elements or by groups): HoRT/GoRT are shifted by that amount at the temperature the species itself is '
-        'evaluated at (T, or the T of its <name>_kwargs entry), H/G with units by -(sum offset*n)*R*T_ref, S/Cp/Cv '
-        '(dimensionless and with units) not at all, and with use_references=False no offset is left in the value. '
-        'fit_HoRT_offset is interpreted through its real code (descriptor matrix, reference temperatures, right-hand '
-        'side) with np.linalg.lstsq as an uninterpreted solver that returns fresh symbolic offsets on every call and '
-        'accepts no truncation threshold (rcond absent/None/-1/<=1e-10); for every reference species i the adjusted '
-        'enthalpy at T_ref minus the experimental value is identically the least-squares residual of row i (so a '
-        'uniquely determined fit reproduces the experiment, and the residual is the solver\'s), for 2-3 references '
-        'over 2-3 descriptors including a descriptor missing from one species, described by elements or by groups '
-        '(the species carry an unrelated dictionary under the other name). The same is decided again after every step '
+        'T*HoRT free of T, descriptors absent from the references only warn; a second References object with other '
+        'offsets in the same run gives its own adjustment. Through a species (references described '
+        'by elements or by groups; the species has the composition the references are described by and NOT the other '
+        'one - no elements in the groups case): HoRT/GoRT are shifted by that amount at the temperature the species '
+        'itself is evaluated at (T, or the T of its <name>_kwargs entry), H/G with units by -(sum offset*n)*R*T_ref, '
+        'S/Cp/Cv (dimensionless and with units) not at all, and with use_references=False no offset is left in the '
+        'value. fit_HoRT_offset is interpreted through its real code (descriptor matrix, reference temperatures, '
+        'right-hand side) with np.linalg.lstsq as an uninterpreted solver that returns fresh symbolic offsets on every '
+        'call and accepts no truncation threshold (rcond absent/None/-1/<=1e-10); np.linalg.solve is the exact solver '
+        '(LinAlgError for a singular or non-square matrix). The solver may be handed a constant multiple k of '
+        'H_dft - H_exp when the stored offsets are the solution divided by k. For every reference species i the '
+        'adjusted enthalpy at T_ref minus the experimental value is identically the least-squares residual of row i '
+        '(so a uniquely determined fit reproduces the experiment, and the residual is the solver\'s), for 1-3 '
+        'references over 1-3 descriptors including a descriptor missing from one species and more species than '
+        'descriptors, described by elements or by groups (some species carry an unrelated dictionary under the other '
+        'name, some none); the reference species are unnamed (the default) or share names. A species created with '
+        'references=refs right after the first fit is, after every later fit, shifted by the offsets of that fit. The '
+        'same is decided again after every step '
         'of: append a reference with a descriptor new to the set + refit, pop + refit, remove + refit, extend by two '
         '(one with a new descriptor) + refit - against the rule\'s own list of species: shape of the system, one '
         'offset per current descriptor equal to the solution of the last solve, T_ref, rows, right-hand side, '
         'reproduction. Reference temperatures differing by 0.01 K: the fit succeeds, each species is evaluated at '
-        'its own T_ref and T_ref becomes the mean.')
+        'its own T_ref and T_ref becomes the mean. Rank-deficient reference sets with concrete counts (C2H4|C3H6 over '
+        'C,H: 2x2 rank 1, + CH2: 3x2 rank 1; CH4O|C2H6O2|C3H8O3: 3x3 rank 2): the fit succeeds and the same '
+        'identities hold.')
     run.assumptions = ['np.linalg.lstsq without a truncation threshold returns the least-squares solution of the '
-                       'system it is given (NumPy contract)']
+                       'system it is given (NumPy contract)',
+                       'np.linalg.solve of a square matrix whose determinant is not identically zero returns the '
+                       'solution of the system (generic counts; singular sets are the concrete instances)']
     run.undecided = ['orthogonality of the residual for rank-deficient sets (NumPy contract)',
                      'how closely references with slightly different reference temperatures are reproduced '
                      '(factor T_mean/T_ref,i)']
@@ -171,7 +345,9 @@ def check(run, repo):
     D = I.D
     T, Tr = D.sym('T'), D.sym('T_ref')
     oA, oB = D.sym('offA'), D.sym('offB')
-    r = Obj('refs', ci, attrs={'offset': DictV({'A': oA, 'B': oB}), 'T_ref': Tr})
+    r = built(I.construct(ci, [], {'offset': DictV({'A': oA, 'B': oB}), 'T_ref': Tr}, name='refs'),
+              'References(offset=, T_ref=)')
+    copies_are_objects(I, r)
     for q in ('get_CvoR', 'get_CpoR', 'get_UoRT', 'get_SoR'):
         owner, fn = repo.find_method(ci, q)
         got = I.call_method(r, q, [], {})
@@ -208,22 +384,43 @@ def check(run, repo):
     G = I.call_method(r, 'get_GoRT', [], {'descriptors': desc, 'T': T})
     o2, f2 = repo.find_method(ci, 'get_GoRT')
     run.check(same(G, want), 'TWIN.G=H-S', 'References.get_GoRT', 'twin', 'G adjustment is not H - S (S=0)', o2.module, f2)
+    # a second References object in the same run (other offsets, another reference temperature, descriptors A and C):
+    # each object adjusts with its own offsets, also when the calls alternate
+    pA, pC, Tq = D.sym('offA\''), D.sym('offC\''), D.sym('T_ref\'')
+    r2 = built(I.construct(ci, [], {'offset': DictV({'C': pC, 'A': pA}), 'T_ref': Tq}, name='refs2'),
+               'References(offset=, T_ref=)')
+    for obj_, want_, tag in ((r2, -(pA * nA + pC * nC) * Tq / T, 'second object'), (r, want, 'first object again')):
+        H = I.call_method(obj_, 'get_HoRT', [], {'descriptors': DictV(dict(cnt)), 'T': T})
+        run.check(same(H, want_), 'REF.apply', 'References.get_HoRT', 'two References objects, ' + tag,
+                  'adjustment is %s, expected %s: -(sum offset*n) * T_ref/T with the offsets and the reference '
+                  'temperature of the object that is asked' % (show(H), show(want_)), owner.module, fn)
+    # the counts of a composition are numbers of any kind: compositions counted with numpy carry np.int64
+    # (dict(zip(*np.unique(symbols, return_counts=True)))), which is neither a Python int nor a Python float
+    mA, mB = D.sym('mA'), D.sym('mB')
+    np_int_counts(I, (mA, mB))
+    H = I.call_method(r, 'get_HoRT', [], {'descriptors': DictV({'A': mA, 'B': mB}), 'T': T})
+    run.check(same(H, -(oA * mA + oB * mB) * Tr / T), 'REF.apply', 'References.get_HoRT',
+              'counts that are numpy integers',
+              'adjustment for a composition whose counts are np.int64 is %s, expected -(sum offset*n) * T_ref/T'
+              % show(H), owner.module, fn)
 
     # ---- application through a species: the species hands over the composition the references are described by ---
-    sci = repo.cls('pmutt.statmech.StatMech')
-    for dname in ('elements', 'groups'):
+    sci = repo.cls(SM)
+    for dname, both in (('elements', False), ('groups', False), ('elements', True), ('groups', True)):
         I2 = Interp(repo)
         D2 = I2.D
         T2, Tr2 = D2.sym('T'), D2.sym('T_ref')
         comp = {'elements': DictV({'A': D2.sym('nA'), 'B': D2.sym('nB')}),
                 'groups': DictV({'CH3': D2.sym('gA'), 'OH': D2.sym('gB')})}
+        if not both:
+            np_int_counts(I2, comp[dname].d.values())      # counted with numpy (np.unique(..., return_counts=True))
         off = DictV({k: D2.sym('off_' + k) for k in comp[dname].d})
-        refs = Obj('refs', ci, attrs={'offset': off, 'T_ref': Tr2, 'descriptor': dname})
-        modes = {a_: opaque_obj(I2, a_, {q_: ('T',) for q_ in ('get_HoRT', 'get_GoRT', 'get_SoR', 'get_CpoR',
-                                                               'get_CvoR')})
-                 for a_ in ('trans_model', 'vib_model', 'rot_model', 'elec_model', 'nucl_model')}
-        sp = Obj('sp', sci, attrs=dict(modes, name='sp', elements=comp['elements'], groups=comp['groups'],
-                                       references=refs, misc_models=None))
+        refs = built(I2.construct(ci, [], {'offset': off, 'T_ref': Tr2, 'descriptor': dname}, name='refs'),
+                     'References(offset=, T_ref=, descriptor=)')
+        # the species has the composition the references are described by and either a different one under the other
+        # name or - the usual case - nothing there: elements=None is the default, groups exist only where assigned
+        sp = make_species(I2, repo, 'sp', refs, comp[dname], dname, other=comp[OTHER[dname]] if both else None)
+        dtag = dname if both else '%s, species without %s' % (dname, OTHER[dname])
         owner2, fn2 = repo.find_method(sci, 'get_HoRT')
         for q in ('get_HoRT', 'get_GoRT'):
             with_refs = I2.call_method(sp, q, [], {'T': T2})
@@ -232,12 +429,14 @@ def check(run, repo):
             for k, nk in comp[dname].d.items():
                 want_adj = want_adj - off.d[k] * nk * Tr2 / T2
             ok = isinstance(with_refs, Rat) and isinstance(without, Rat) and same(with_refs - without, want_adj)
-            run.check(ok, 'REF.apply', 'StatMech.' + q, 'references described by %s' % dname,
+            run.check(ok, 'REF.apply', 'StatMech.' + q, 'references described by %s' % dtag,
                       'a species whose references are described by its %r shifts %s by %s, expected '
                       '-(sum offset*n) * T_ref/T over that composition' % (
                           dname, q[4:], show(with_refs - without, 160) if ok is False and isinstance(with_refs, Rat)
                           and isinstance(without, Rat) else show(with_refs, 120)), owner2.module, fn2,
                       sample='StatMech.%s with References(descriptor=%r): shift = -(sum offset*n)*T_ref/T' % (q, dname))
+            if both:
+                continue        # the rest is decided on the species that has the described composition only
             # the species is given its own temperature the documented way (<name>_kwargs); an entry for another
             # species is not its business: modes and adjustment are both evaluated at the species' temperature, so the
             # energy added is still -(sum offset*n)*R*T_ref whatever T is
@@ -249,7 +448,7 @@ def check(run, repo):
             for k, nk in comp[dname].d.items():
                 want_adj = want_adj - off.d[k] * nk * Tr2 / T3
             ok = isinstance(with_refs, Rat) and isinstance(without, Rat) and same(with_refs - without, want_adj)
-            run.check(ok, 'REF.apply', 'StatMech.' + q, 'references described by %s, species-specific T' % dname,
+            run.check(ok, 'REF.apply', 'StatMech.' + q, 'references described by %s, species-specific T' % dtag,
                       'a species evaluated with T=T and %s_kwargs={T: T_sp} shifts %s by %s, expected '
                       '-(sum offset*n) * T_ref/T_sp (the temperature the species itself is evaluated at)' % (
                           'sp', q[4:], show(with_refs - without, 160) if isinstance(with_refs, Rat)
@@ -268,16 +467,18 @@ def check(run, repo):
                 want_E = want_E - off.d[k] * nk * Tr2 * Ru
             ok = isinstance(with_refs, Rat) and isinstance(without, Rat) and same(with_refs - without, want_E)
             o3, f3 = repo.find_method(sci, qu)
-            run.check(ok, 'REF.apply', 'StatMech.' + qu, 'references described by %s' % dname,
+            run.check(ok, 'REF.apply', 'StatMech.' + qu, 'references described by %s' % dtag,
                       'a species with references shifts %s(units=%r) by %s, expected -(sum offset*n)*R*T_ref' % (
                           qu[4:], units, show(with_refs - without, 160) if isinstance(with_refs, Rat)
                           and isinstance(without, Rat) else show(with_refs, 120)), o3.module, f3,
                       sample='StatMech.%s(T, units) with references: shift = -(sum offset*n)*R*T_ref' % qu)
             left = [str(a_) for a_ in atoms_of(without) if str(a_).startswith('off_')] if isinstance(without, Rat) \
                 else ['?']
-            run.check(not left, 'FWD.switch', 'StatMech.' + qu, 'use_references=False, %s' % dname,
+            run.check(not left, 'FWD.switch', 'StatMech.' + qu, 'use_references=False, %s' % dtag,
                       '%s(use_references=False) still depends on the offsets %s: the adjustment is not switched off'
                       % (qu, left), o3.module, f3)
+        if both:
+            continue
         # nothing is added to S and the heat capacities, dimensionless or with units
         for q, units in (('get_SoR', None), ('get_CpoR', None), ('get_CvoR', None), ('get_S', 'J/mol/K'),
                          ('get_Cp', 'J/mol/K'), ('get_Cv', 'J/mol/K')):
@@ -288,38 +489,62 @@ def check(run, repo):
             without = I2.call_method(sp, q, [], dict(kw_, use_references=False))
             o3, f3 = repo.find_method(sci, q)
             ok = isinstance(with_refs, Rat) and isinstance(without, Rat) and same(with_refs, without)
-            run.check(ok, 'IDENT.zero', 'StatMech.' + q, 'references described by %s' % dname,
+            run.check(ok, 'IDENT.zero', 'StatMech.' + q, 'references described by %s' % dtag,
                       'references change %s of a species by %s' % (q[4:], show(with_refs - without, 160) if isinstance(
                           with_refs, Rat) and isinstance(without, Rat) else show(with_refs, 120)), o3.module, f3)
+
 
     # ---- fitting ---------------------------------------------------------------
     n_fit = 0
     owner, fn = repo.find_method(ci, 'fit_HoRT_offset')
-    fit_cases = [(comps, dname, False)
+    fit_cases = [(comps, dname, False, None)
                  for dname in ('elements', 'groups')
                  for comps in ((('A', 'B'), ('A', 'B')), (('A', 'B'), ('B',), ('A', 'B', 'C')), (('A',), ('A', 'B')))]
+    # one descriptor, one reference; one descriptor and more references than descriptors
+    fit_cases.append(((('A',),), 'elements', False, None))
+    fit_cases.append(((('A',), ('A',), ('A',)), 'groups', False, None))
     # reference temperatures that differ slightly (298.15 K vs 298.16 K): the fit still succeeds
-    fit_cases.append(((('A', 'B'), ('B',), ('A', 'B')), 'elements', True))
-    for comps, dname, vary_T in fit_cases:
+    fit_cases.append(((('A', 'B'), ('B',), ('A', 'B')), 'elements', True, None))
+    # rank-deficient reference sets (concrete counts; the appended reference keeps the rank): C2H4|C3H6 (+CH2) over
+    # C,H and CH4O|C2H6O2|C3H8O3 over C,H,O.  They come last: concrete numbers are where the interpreter refuses most
+    fit_cases.append(((('A', 'B'), ('A', 'B')), 'elements', False,
+                      ([{'A': 2, 'B': 4}, {'A': 3, 'B': 6}], {'A': 1, 'B': 2}, 'rank 1: A2B4|A3B6')))
+    fit_cases.append(((('A', 'B', 'C'), ('A', 'B', 'C'), ('A', 'B', 'C')), 'groups', False,
+                      ([{'A': 1, 'B': 4, 'C': 1}, {'A': 2, 'B': 6, 'C': 2}, {'A': 3, 'B': 8, 'C': 3}], None,
+                       'rank 2: AB4C|A2B6C2|A3B8C3')))
+    # Names of the reference species (Reference.name; nothing in the property depends on them): the default of the
+    # class - every species unnamed - or names that occur more than once (isomers, the same species from two sources)
+    shared = {'ref0': 'C3H6O', 'ref1': 'C3H6O', 'ref2': 'acetone', 'refX': 'C3H6O', 'refY': 'acetone', 'refZ': None}
+    for case_no, (comps, dname, vary_T, concrete) in enumerate(fit_cases):
         I = Interp(repo)
         D = I.D
         Tr = D.sym('Tr')
         sols = solver_model(I)
+        pname = (lambda lb: None) if case_no % 2 == 0 else shared.get
         Trefs = [Tr + C(Fr(1, 100)) if vary_T and i == 1 else Tr for i in range(len(comps))]
-        species = [ref_species(I, 'ref%d' % i, comp, Trefs[i], dname) for i, comp in enumerate(comps)]
-        r = Obj('refs', ci, closed=True)
-        kw_ = {'references': ListV(list(species))}
+        # the species also carry an unrelated dictionary under the other name: all of them (every third case) or
+        # every other one - the rest has nothing there (elements=None, no groups)
+        species = [ref_species(I, repo, 'ref%d' % i, comp, Trefs[i], dname, name=pname('ref%d' % i),
+                               counts=concrete[0][i] if concrete else None,
+                               other=case_no % 3 == 0 or (i + case_no) % 2 == 0)
+                   for i, comp in enumerate(comps)]
+        if case_no in (2, 5):
+            # compositions counted with numpy (np.int64 counts) - nothing in the property depends on the number type
+            np_int_counts(I, [v_ for s_ in species for v_ in s_.comp.values()])
+        kw_ = {'references': ListV([s_.obj for s_ in species])}
         if dname != 'elements':
             kw_['descriptor'] = dname
-        res = I.call_method(r, '__init__', [], kw_)
         label = 'references:%s' % '|'.join(''.join(c_) for c_ in comps)
         if dname != 'elements':
             label += ' described by %s' % dname
         if vary_T:
             label += ' T_ref differing by 0.01 K'
-        if isinstance(res, Raised) or 'x' not in sols:
+        if concrete:
+            label += ' ' + concrete[2]
+        r = I.construct(ci, [], kw_, name='refs')
+        if isinstance(r, Raised) or 'x' not in sols:
             run.fail('REF.fit', 'References.fit_HoRT_offset', label, 'constructing References with reference species '
-                     'does not fit the offsets (%s)' % show(res), owner.module, fn)
+                     'does not fit the offsets (%s)' % show(r), owner.module, fn)
             continue
         # descriptor counts are real numbers (fractional formula units, non-stoichiometric oxides, user descriptors):
         # nothing on the way to the solver may store them in an integer-typed buffer
@@ -329,7 +554,13 @@ def check(run, repo):
                   'descriptor counts are stored into an array created with an integer element type: fractional '
                   'counts are truncated before the least-squares fit', hm[0] if hm else owner.module,
                   hz[0][0] if hz else fn)
-        n_fit += verify_fit(run, repo, ci, I, r, species, sols, dname, label, '')
+        # A species that is given the References object now - before the reference set changes and is fitted again. It
+        # holds the object; after every later fit it must be adjusted with the offsets of that fit. Its composition
+        # has a descriptor that comes and goes with the appended reference (D) and one the set never knows (Q).
+        tcomp = {k: D.sym('t' + k) for k in ('A', 'B', 'D', 'Q')}
+        holder = make_species(I, repo, 'target', r, DictV(tcomp), dname)
+        holders = [(holder, tcomp, D.sym('T'))]
+        n_fit += verify_fit(run, repo, ci, I, r, species, sols, dname, label, '', holders)
         if vary_T:
             continue
         # A sequence of changes to the reference set, each followed by a refit. The rule keeps its own list of the
@@ -337,29 +568,39 @@ def check(run, repo):
         # solution of THIS solve - the solver model numbers its solutions), T_ref and the reproduction of every
         # reference are decided again against that list.
         now = list(species)
+        nf0 = len(run.findings)
+
+        def step(stage, method, kw_m, added=(), removed=None):
+            """one change of the reference set + refit; False when the history of this case ends here: the set is
+            not what the rule's list says (findings were reported), what follows would only repeat that"""
+            if len(run.findings) > nf0:
+                return 0
+            I.call_method(r, method, [], kw_m)
+            now.extend(added)
+            if removed is not None:
+                now.pop(removed)
+            return refit(run, repo, ci, I, r, now, sols, dname, label, stage, holders)
+        if concrete:
+            # rank-deficient sets: one more reference that keeps the rank (more species than descriptors) + refit
+            if concrete[1] is not None:
+                extra = ref_species(I, repo, 'refX', tuple(concrete[1]), Tr, dname, name=pname('refX'),
+                                    counts=concrete[1])
+                n_fit += step(' append+refit', 'append', {'obj': extra.obj}, [extra])
+            continue
         # ... a reference that brings a descriptor the set did not know (D)
-        extra = ref_species(I, 'refX', ('A', 'D'), Tr, dname)
-        I.call_method(r, 'append', [], {'obj': extra})
-        now.append(extra)
-        n_fit += refit(run, repo, ci, I, r, now, sols, dname, label, ' append+refit')
+        extra = ref_species(I, repo, 'refX', ('A', 'D'), Tr, dname, name=pname('refX'))
+        n_fit += step(' append+refit', 'append', {'obj': extra.obj}, [extra])
         # ... removing references again (pop of the last takes D away again, remove of the first)
-        for how in ('pop', 'remove'):
-            if repo.find_method(ci, how, missing_ok=True) is None:
-                continue
-            if how == 'pop':
-                I.call_method(r, 'pop', [], {})
-                now.pop()
-            else:
-                I.call_method(r, 'remove', [], {'obj': now[0]})
-                now.pop(0)
-            n_fit += refit(run, repo, ci, I, r, now, sols, dname, label, ' %s+refit' % how)
+        if repo.find_method(ci, 'pop', missing_ok=True) is not None:
+            n_fit += step(' pop+refit', 'pop', {}, removed=-1)
+        if repo.find_method(ci, 'remove', missing_ok=True) is not None and len(now) > 1:
+            n_fit += step(' remove+refit', 'remove', {'obj': now[0].obj}, removed=0)
         # ... and adding several references at once (one of them with another new descriptor)
         if repo.find_method(ci, 'extend', missing_ok=True) is not None:
-            more = [ref_species(I, 'refY', ('A',), Tr, dname), ref_species(I, 'refZ', ('B', 'A', 'E'), Tr, dname)]
-            I.call_method(r, 'extend', [], {'seq': ListV(list(more))})
-            now.extend(more)
-            n_fit += refit(run, repo, ci, I, r, now, sols, dname, label, ' extend+refit')
-    run.floor('fit instances', n_fit, 18)
+            more = [ref_species(I, repo, 'refY', ('A',), Tr, dname, name=pname('refY')),
+                    ref_species(I, repo, 'refZ', ('B', 'A', 'E'), Tr, dname, name=pname('refZ'))]
+            n_fit += step(' extend+refit', 'extend', {'seq': ListV([s_.obj for s_ in more])}, more)
+    run.floor('fit instances', n_fit, 200)
     run.extra['fit_instances'] = n_fit
 
 
@@ -409,4 +650,60 @@ MUTANTS += [
     {'name': 'wb: references add to the entropy of a species', 'expect': ('IDENT.zero', ''),
      'edits': [(F_, '    def get_SoR(self):\n        return 0.', '    def get_SoR(self):\n        return 1.')]},
 ]
-EQUIV = []
+MUTANTS += [
+    {'name': 'wb2: append skips a reference whose name is already in the set (unnamed references: None)',
+     'expect': ('PATH.refit', 'fit_HoRT_offset'),
+     'edits': [(F_, '    def append(self, obj):\n        self.references.append(obj)',
+                '    def append(self, obj):\n        if self.index(obj.name) is None:\n'
+                '            self.references.append(obj)')]},
+    {'name': 'wb2: extend skips references whose name is already in the set',
+     'expect': ('PATH.refit', 'fit_HoRT_offset'),
+     'edits': [(F_, '        self.references.extend(seq)',
+                '        self.references.extend([obj for obj in seq if self.index(obj.name) is None])')]},
+    {'name': 'wb2: references applied only to species that have elements', 'expect': ('REF.apply', 'StatMech'),
+     'edits': [(S_, '        if use_references and self.references is not None:',
+                '        if (use_references and self.references is not None\n'
+                '                and self.elements is not None):')]},
+    {'name': 'wb2: square systems solved with np.linalg.solve', 'expect': ('REF.fit', 'fit_HoRT_offset'),
+     'edits': [(F_, '        offset = np.linalg.lstsq(descriptors_mat, ref_offset, rcond=None)[0]',
+                '        if descriptors_mat.shape[0] == descriptors_mat.shape[1]:\n'
+                '            offset = np.linalg.solve(descriptors_mat, ref_offset)\n'
+                '        else:\n'
+                '            offset = np.linalg.lstsq(descriptors_mat, ref_offset, rcond=None)[0]')]},
+    {'name': 'wb2: correction exp - dft fitted and stored without changing the sign back',
+     'expect': ('DATAFLOW.offset', 'fit_HoRT_offset'),
+     'edits': [(F_, '        ref_offset = HoRT_ref_dft - HoRT_ref_exp', '        ref_offset = HoRT_ref_exp - HoRT_ref_dft'),
+               (F_, '        offset = np.linalg.lstsq(descriptors_mat, ref_offset, rcond=None)[0]',
+                '        offset = 0. + np.linalg.lstsq(descriptors_mat, ref_offset, rcond=None)[0]')]},
+    {'name': 'wb2: offsets memoised per descriptor name across References objects',
+     'expect': ('REF.apply', 'References.get_HoRT'),
+     'edits': [(F_, 'class Reference(EmpiricalBase):', '_OFFSETS = {}\n\n\nclass Reference(EmpiricalBase):'),
+               (F_, '                HoRT -= self.offset[descriptor] * coefficient',
+                '                HoRT -= _OFFSETS.setdefault(descriptor, self.offset[descriptor]) * coefficient')]},
+    {'name': 'wb2: counts that are not Python int/float skipped (numpy integers)',
+     'expect': ('REF.apply', 'get_HoRT'),
+     'edits': [(F_, '            try:\n                HoRT -= self.offset[descriptor] * coefficient',
+                '            if not isinstance(coefficient, (int, float)):\n                continue\n'
+                '            try:\n                HoRT -= self.offset[descriptor] * coefficient')]},
+]
+# armed by the run that finds the interpreter model they need (see arm(), REQ2_C10)
+PENDING_MUTANTS = [
+    {'name': 'wb2: every species keeps its own copy of the References object', 'needs': 'object-copy',
+     'expect': ('REF.apply', 'StatMech.get_HoRT'),
+     'edits': [(S_, '        self.references = references', '        self.references = copy(references)')]},
+]
+EQUIV = [
+    {'name': 'wb2: the correction exp - dft is fitted and its negative stored',
+     'edits': [(F_, '        ref_offset = HoRT_ref_dft - HoRT_ref_exp', '        ref_offset = HoRT_ref_exp - HoRT_ref_dft'),
+               (F_, '        offset = np.linalg.lstsq(descriptors_mat, ref_offset, rcond=None)[0]',
+                '        offset = 0. - np.linalg.lstsq(descriptors_mat, ref_offset, rcond=None)[0]')]},
+    {'name': 'wb2: offset and T_ref behind trivial properties; lstsq called with keywords',
+     'edits': [(F_, '    def __iter__(self):\n        """Iterates over references attribute',
+                '    @property\n    def offset(self):\n        return self._offset\n\n'
+                '    @offset.setter\n    def offset(self, val):\n        self._offset = val\n\n'
+                '    @property\n    def T_ref(self):\n        return self._T_ref\n\n'
+                '    @T_ref.setter\n    def T_ref(self, val):\n        self._T_ref = val\n\n'
+                '    def __iter__(self):\n        """Iterates over references attribute'),
+               (F_, 'np.linalg.lstsq(descriptors_mat, ref_offset, rcond=None)[0]',
+                'np.linalg.lstsq(a=descriptors_mat, b=ref_offset, rcond=None)[0]')]},
+]
